@@ -1619,7 +1619,10 @@ def _f(x):
         t = type(x)
     if t is int or t is bool:
         return float(x)
-    return x
+    if t is float or t is RealT or t is TermT or t is BVT:
+        return x
+    # symbolic int/bool entering float arithmetic: exact real (never CrossHair's IEEE float)
+    return _to_real(x)
 
 
 def _unop(a, fn, rdt, wrap=True):
